@@ -56,7 +56,7 @@ def floors(tier):
     return {"runs": 400 * k, "decided:resumes": 300 * k, "decided:warm_starts": 150 * k, "decided:deletes_before_end": 500 * k,
             "early_removals": 100 * k, "runs:delete_checkpoints": 200 * k, "runs:no_delete": 80 * k,
             "decided:sync_paused_deletes": 50 * k, "runs:early_removal_requested": 60 * k,
-            "decided:pbt_clone_source_choices": 100 * k, "runs:pbt_with_jobs_ending_by_themselves": 40 * k,
+            "decided:pbt_clone_source_choices": 100 * k, "runs:pause_capable_with_several_reports_per_poll": 30 * k, "runs:dehb_without_pause_resume": 15 * k, "runs:pbt_with_jobs_ending_by_themselves": 40 * k,
             "decided:warm_starts_from_completed_trial": 5 * k, "decided:warm_starts_from_failed_trial": 5 * k, "runs:nan_reporting_trials": 25 * k, "decided:resumes_of_nan_trials": 10 * k}
 
 
@@ -72,7 +72,13 @@ def expand(spec):
          "sjwd": True, "async": rng.random() < 0.9, "wait": rng.random() < 0.3,
          "space": gen.small_space(rng, ensure_infinite=True, ordinal_kinds=("equal",)), "curves": rng.choice(["continuous", "crossing"])}
     if simrun.pause_capable(kind) and not use_mra:
-        p["plan"]["burst"] = 1
+        if rng.random() < 0.7:
+            p["plan"]["burst"] = 1
+        else:
+            # a script that writes checkpoints but always restarts at level 1 (so it cannot skip a rung level) may run ahead
+            # of the poll: several reports per poll, the PAUSE decision in the middle of a batch
+            p["checkpointing"] = False
+            p["plan"]["burst"] = rng.choice([2, 3, 5])
     if kind == "pbt" and rng.random() < 0.6:
         # members of the population whose job ends by itself (script shorter than max_t) or fails after some reports:
         # the scheduler has not stopped them, so they stay candidates for cloning
@@ -104,8 +110,10 @@ def run_case(spec):
     if p["early"]:
         sched_extra["early_checkpoint_removal_kwargs"] = dict(p["early"])
         o.count("runs:early_removal_requested")
-    if kind == "dehb":
-        pass
+    if kind == "dehb" and random.Random(spec["seed"] + 3).random() < 0.4:
+        # documented option: first-bracket trials are stopped at their rung level and promotions start new trials
+        sched_extra["support_pause_resume"] = False
+        o.count("runs:dehb_without_pause_resume")
     value_fn = None
     if p.get("nan_frac"):
         # diverged trainings: some trials report NaN at every level (synchronous Hyperband counts them as failed and,
@@ -149,6 +157,8 @@ def run_case(spec):
                         break
             o.violate("run_completes", f"{kind}:tuner_run_raised:{type(r.exc).__name__}{tag}", {"error": msg})
     o.count("runs:delete_checkpoints" if p["delete_checkpoints"] else "runs:no_delete")
+    if simrun.pause_capable(kind) and not p["use_mra"] and p["plan"].get("burst", 1) > 1:
+        o.count("runs:pause_capable_with_several_reports_per_poll")
     if kind == "pbt" and (p["plan"].get("short") or p["plan"].get("fail")):
         o.count("runs:pbt_with_jobs_ending_by_themselves")
     events = r.rec.events
